@@ -343,7 +343,7 @@ Section QProofs.
         * eapply in_domc_agree with (Q := qvars l); [exact Hd|exact A1|intros ? ?; simpl; apply in_or_app; auto|intros x Hx Hq; dj].
         * exists b2, rho2. split; [apply in_flat_map; exists (b1, true); auto|]. split; auto.
           eapply agree_off_trans; eapply agree_off_weaken; eauto; intros; apply in_or_app; auto.
-    - (* union *)
+    - (* union (since 6dfdafd: the first pass is ElseIf, the second pass contributes true results of r only) *)
       destruct IHl as (TSl & FSl & TCl & FCl). destruct IHr as (TSr & FSr & TCr & FCr).
       assert (Dl : forall rho, in_domc D rho (CUnion l r) -> in_domc D rho l) by (intros rho H x Hx; apply H; simpl; apply in_or_app; auto).
       assert (Dr : forall rho, in_domc D rho (CUnion l r) -> in_domc D rho r) by (intros rho H x Hx; apply H; simpl; apply in_or_app; auto).
@@ -360,8 +360,18 @@ Section QProofs.
              ++ eapply eval_bok_q; eauto.
           -- destruct H2 as [[= <-]|[]].
              rewrite (TSl bnd b b1 Okl Wl Hb (Fl _ Hf) Hbk H1 rho He (Dl _ Hd)). reflexivity.
-        * rewrite (TSr bnd b b' Okr Wr Hb (Fr _ Hf) Hbk Hin rho He (Dr _ Hd)). apply orb_true_r.
-      + intros bnd b b' Hok. simpl in Hok. discriminate.
+        * apply filter_In in Hin as [Hin _].
+          rewrite (TSr bnd b b' Okr Wr Hb (Fr _ Hf) Hbk Hin rho He (Dr _ Hd)). apply orb_true_r.
+      + intros bnd b b' Hok Wf Hb Hf Hbk Hin rho He Hd. simpl in *. split_wf Wf.
+        apply andb_prop in Hok as [Okl Okr].
+        apply in_app_or in Hin as [Hin|Hin]; [|apply filter_In in Hin as [_ Hin]; discriminate].
+        apply in_flat_map in Hin as ([b1 f1] & H1 & H2). simpl in H2. destruct f1; [|destruct H2 as [[=]|[]]].
+        assert (P1 : pres b1 b') by (eapply eval_pres; eauto).
+        rewrite (FSl bnd b b1 Okl Wl Hb (Fl _ Hf) Hbk H1 rho (pres_extends _ _ _ P1 He) (Dl _ Hd)).
+        rewrite (FSr (bnd ++ mb false l) b1 b' Okr Wr); auto.
+        * apply binds_all_app; [eapply binds_all_pres; [eapply eval_pres; eauto|auto]|eapply (eval_mb W D l false); eauto].
+        * eapply fresh_after; eauto.
+        * eapply eval_bok_q; eauto.
       + intros bnd b rho Hok Wf Hb Hf Hbk He Hd Hs. simpl in *. split_wf Wf.
         apply andb_prop in Hok as [Okl Okr].
         destruct (sat W D rho l) eqn:Sl; simpl in Hs.
@@ -369,13 +379,20 @@ Section QProofs.
           exists b1, rho1. split; [apply in_or_app; left; apply in_flat_map; exists (b1, false); simpl; auto|]. split; auto.
           eapply agree_off_weaken; eauto; intros; apply in_or_app; auto.
         * destruct (TCr bnd b rho Okr Wr Hb (Fr _ Hf) Hbk He (Dr _ Hd) Hs) as (b2 & rho2 & H2 & He2 & A2).
-          exists b2, rho2. split; [apply in_or_app; right; auto|]. split; auto.
+          exists b2, rho2. split; [apply in_or_app; right; apply filter_In; split; auto|]. split; auto.
           eapply agree_off_weaken; eauto; intros; apply in_or_app; auto.
       + intros bnd b rho Hok Wf Hb Hf Hbk He Hd Hs. simpl in *. split_wf Wf.
-        apply orb_false_iff in Hs as [Sl Sr].
-        destruct (FCr bnd b rho Hok Wr Hb (Fr _ Hf) Hbk He (Dr _ Hd) Sr) as (b2 & rho2 & H2 & He2 & A2).
-        exists b2, rho2. split; [apply in_or_app; right; auto|]. split; auto.
-        eapply agree_off_weaken; eauto; intros; apply in_or_app; auto.
+        apply andb_prop in Hok as [Okl Okr]. apply orb_false_iff in Hs as [Sl Sr].
+        destruct (FCl bnd b rho Okl Wl Hb (Fl _ Hf) Hbk He (Dl _ Hd) Sl) as (b1 & rho1 & H1 & He1 & A1).
+        assert (Sr1 : sat W D rho1 r = false).
+        { rewrite (sat_agree r rho rho1 (qvars l) A1); auto. intros x Hx Hq. dj. }
+        destruct (FCr (bnd ++ mb false l) b1 rho1 Okr Wr) as (b2 & rho2 & H2 & He2 & A2); auto.
+        * apply binds_all_app; [eapply binds_all_pres; [eapply eval_pres; eauto|auto]|eapply (eval_mb W D l false); eauto].
+        * eapply fresh_after; eauto.
+        * eapply eval_bok_q; eauto.
+        * eapply in_domc_agree with (Q := qvars l); [exact Hd|exact A1|intros ? ?; simpl; apply in_or_app; auto|intros x Hx Hq; dj].
+        * exists b2, rho2. split; [apply in_or_app; left; apply in_flat_map; exists (b1, true); auto|]. split; auto.
+          eapply agree_off_trans; eapply agree_off_weaken; eauto; intros; apply in_or_app; auto.
     - (* not *)
       destruct IH as (TSc & FSc & TCc & FCc).
       repeat split.
